@@ -46,6 +46,10 @@ func loadMutants(verif, prop string) ([]Mutant, error) {
 	var out []Mutant
 	for _, m := range all {
 		if m.Property == prop {
+			// development aid: GTSVERIF_ONLY=<substring> runs only the matching variants
+			if only := os.Getenv("GTSVERIF_ONLY"); only != "" && !strings.Contains(m.ID, only) {
+				continue
+			}
 			out = append(out, m)
 		}
 	}
